@@ -234,8 +234,8 @@ impl Property for C01 {
 
     fn runs(tier: Tier) -> u64 {
         match tier {
-            Tier::Quick => 300_000,
-            Tier::Thorough => 30_000_000,
+            Tier::Quick => 500_000,
+            Tier::Thorough => 50_000_000,
         }
     }
 
